@@ -168,20 +168,15 @@ Theorem C10_trim_collinear_safe :
 Proof. exact PathUtilsInst.trim_total_subseq. Qed.
 Print Assumptions C10_trim_collinear_safe.
 
-(* RamerDouglasPeucker: safe for every epsilon whose square is >= 0, i.e. every epsilon except NaN ... *)
+(* RamerDouglasPeucker: safe for every epsilon whose square is >= 0, i.e. every epsilon except NaN.  For NaN the code
+   recursed without bound before /repo 75ed759 (`max_d <= NaN` is false, idx stays 0, RDP(path, 0, end) calls itself with
+   the same arguments: stack overflow, checks/C10.py key rdp.nan-epsilon.unbounded-recursion); the model of the repaired
+   exit test belongs to C20. *)
 Theorem C10_rdp_safe_partial :
   forall (p : path) (eps : float),
     (0 <=? PathUtils.fsqr eps)%float = true -> exists r : path, PathUtils.rdp_path p eps = PathUtils.Ok r.
-Proof. exact PathUtilsInst.rdp_path_safe. Qed.
+Proof. exact SafetyC10.rdp_safe_nonnan. Qed.
 Print Assumptions C10_rdp_safe_partial.
-
-(* ... and NOT for epsilon = NaN: the fuelled model of the recursion runs out of fuel on a collinear five-point path
-   (`max_d <= NaN` is false, idx stays 0, RDP(path, 0, end) calls itself with the same arguments).  Replayed on the
-   real code by checks/C10.py: stack overflow (key rdp.nan-epsilon.unbounded-recursion). *)
-Theorem C10_rdp_nan_refuted :
-  exists p : path, PathUtils.rdp_path p nan = PathUtils.ErrFuel /\ (0 <=? PathUtils.fsqr nan)%float = false.
-Proof. exact (ex_intro _ _ (conj SafetyC10.rdp_nan_out_of_fuel SafetyC10.rdp_nan_hypothesis_fails)). Qed.
-Print Assumptions C10_rdp_nan_refuted.
 
 (* ================================================================== (e) RectClipLines (model and proofs of C09) *)
 
@@ -233,17 +228,16 @@ Theorem C10_offset_joined_accesses_in_bounds :
 Proof. exact OffsetGeomProofs.joined_accesses_in_bounds. Qed.
 Print Assumptions C10_offset_joined_accesses_in_bounds.
 
-(* ... and NOT for an EMPTY path, which DoGroupOffset does not filter out: the first access is path[0] of an empty vector
-   (DESIGN section 9 item 4; checks/C10.py key offset.empty-path.open-end-type; repaired by
-   triage/C10-offset-empty-path.patch, after which only the hypotheses above can occur) *)
+(* ... and NOT for an EMPTY path: the first access is path[0] of an empty vector.  DoGroupOffset passed empty paths on to
+   these routines before /repo e710a8d (DESIGN section 9 item 4; checks/C10.py key offset.empty-path.open-end-type); it now
+   skips them, so only the hypotheses above can occur. *)
 Theorem C10_offset_open_empty_path_refuted :
-  exists len : Z, 0 <= len /\
-    forallb (OffsetGeom.in_bounds len) (OffsetGeom.open_path_accesses len) = false /\
-    In (OffsetGeom.APath, 0) (OffsetGeom.open_path_accesses len).
-Proof. exact OffsetGeomProofs.open_accesses_in_bounds_refuted. Qed.
+  forallb (OffsetGeom.in_bounds 0) (OffsetGeom.open_path_accesses 0) = false /\
+  In (OffsetGeom.APath, 0) (OffsetGeom.open_path_accesses 0).
+Proof. exact SafetyC10.offset_open_empty_out_of_bounds. Qed.
 Print Assumptions C10_offset_open_empty_path_refuted.
 
 Theorem C10_offset_joined_empty_path_refuted :
   forallb (OffsetGeom.in_bounds 0) (OffsetGeom.open_joined_accesses 0) = false.
-Proof. exact OffsetGeomProofs.joined_accesses_in_bounds_refuted. Qed.
+Proof. exact SafetyC10.offset_joined_empty_out_of_bounds. Qed.
 Print Assumptions C10_offset_joined_empty_path_refuted.
